@@ -485,6 +485,10 @@ struct Value {
             return;
         }
         auto bech = result.data;
+        if (bech.empty()) {
+            fprintf(stderr, "bech32(m) string has no data part\n");
+            return;
+        }
         // Bech32(m) decoding
         int version = bech[0]; // The first 5 bit symbol is the witness version (0-16)
         // data = r.second;
